@@ -49,6 +49,8 @@ def check(run, text, viol, counts, classes, chains=None, titrate_only=None, remo
             if got_i.count(k) != 1:
                 viol.append({"cls": "ion-not-recognised", "msg": "%s: ion atom %r of the input yields %d ION groups" % (name, k, got_i.count(k))})
         for k in got_i:
+            if k not in exp_i and allow_topup_extras and len(names) > 1:
+                continue        # copied in from another model by the top-up
             if k not in exp_i:
                 viol.append({"cls": "census-spurious", "msg": "%s: ION group on %r which is not a configured ion" % (name, k)})
     if set(per_conf) - set(names):
@@ -56,6 +58,19 @@ def check(run, text, viol, counts, classes, chains=None, titrate_only=None, remo
     if first_sites is None:
         return cen
     same = all(_sig(per_conf[n]) == _sig(first_sites) for n in names if n in per_conf)
+    if not same and all(n in per_conf for n in names):
+        # models with different site sets (point mutants, missing residues): the average and the
+        # written summary must report the union of the sites of all models, each once
+        union = {}
+        for n in names:
+            for s_ in per_conf[n]:
+                union.setdefault((s_["rtype"], tuple(s_["resid"]), s_["akey"][0]), s_)
+        usites = list(union.values())
+        _check_conf("AVR", rec["confs"]["AVR"], usites, titrate_only, viol, counts, classes, c, False, match_atoms=False)
+        counts["union_census_checks"] = counts.get("union_census_checks", 0) + 1
+        if run.text:
+            _check_summary(run, [dict(s_, bridged=False) for s_ in usites if s_["in_list"]], rec["confs"]["AVR"],
+                           rec["confs"][names[0]], viol, counts, classes, remove_penalised)
     if same:
         # AVR and the written summary report the same set (identical site sets in all models)
         exp = [s for s in first_sites if s["in_list"]]
@@ -110,7 +125,11 @@ def _check_conf(name, conf, sites, titrate_only, viol, counts, classes, c, check
             if abs(g["model_pka"] - s["model"]) > 1e-9:
                 viol.append({"cls": "census-model-pka", "msg": "%s: %s has model pKa %.2f, table says %.2f" % (
                     name, g["label"], g["model_pka"], s["model"])})
-            if s["bridged"]:
+            if allow_extra or name == "AVR" and not match_atoms:
+                # a conformation completed from other models may gain a bridging partner, and the
+                # average of a bridged and an unbridged conformation is neither: not judged here
+                counts["bridge_clause_not_judged"] = counts.get("bridge_clause_not_judged", 0) + 1
+            elif s["bridged"]:
                 if g["titratable"] or abs(g["pka"] - 99.99) > 1e-9:
                     viol.append({"cls": "census-bridged-cys", "msg": "%s: bridged %s titratable=%s pKa=%.2f" % (
                         name, g["label"], g["titratable"], g["pka"])})
